@@ -3,8 +3,12 @@ import re
 
 
 def _translate():
-    from translate import stripe_net
-    return stripe_net.translate()
+    from translate import stripe_net, stripe_seq
+    a = stripe_net.translate()
+    b = stripe_seq.translate()
+    return dict(ok=a.get("ok", True) and b.get("ok", True),
+                notes=a.get("notes", []) + b.get("notes", []),
+                errors=a.get("errors", []) + b.get("errors", []))
 
 
 def _ops(line):
@@ -72,7 +76,14 @@ SPEC = dict(
     histogram=histogram,
     signature=signature,
     translate=_translate,
-    rule="corpus/C04/boundary.txt (111 committed histories: the AVX2 kernel and the dispatcher's AVX2 arm at "
+    rule="[round 3] column counts 1,2,4,8,16,32,48,64; backends ng/nn = the 16-lane dispatcher of arm/aarch64 targets "
+         "(both arms name the generic kernel in the regenerated table; replayed through Pipeline::generic() at C=16); "
+         "ops sm:<seed>:<n> = StripedSequence::sample (stream oracle: EncodedSequence::sample with the same seed and "
+         "background for rows*C symbols; EncodedSequence::sample(n) must be its first n symbols; every cell must be "
+         "draw r*C+c) and nw:<n>:<rows> = StripedSequence::new on a matrix with arbitrary contents (exact / extra / "
+         "too few rows: Err); after sm/nw the padding is arbitrary and the extracted check_C04_pad (C04_check_pad_sound) "
+         "decides until the next stripe op; configure / configure_wrap / Index / count_symbol(s) of the model are the "
+         "statement lists translated from seq.rs (GenSeq.v, SeqT.v). corpus/C04/boundary.txt (331 committed histories: the AVX2 kernel and the dispatcher's AVX2 arm at "
          "L = 0,1,31..33,63..65,991..993,1000 (the repaired over-read),1023..1025,1054..1057,1087..1089,2047..2049,"
          "2078..2081,3103..3105 into a stale configured buffer; the 64 / 1031 nt lengths of tests/stripe.rs through "
          "all five pipelines; wrap wider than the row count, growing/shrinking widths, empty motif, empty sequence for "
@@ -99,6 +110,11 @@ SPEC = dict(
         "lemma about the translated network (NetProofs.net_coords and three forallb facts about the load/store "
         "lists) and in Example lemmas; no native_compute; all theorems closed under the global context",
         "extraction: ExtrOcamlBasic only (nat, list kept as extracted inductives); OCaml 4.13.1",
+        "translator translate/stripe_seq.py (statement-skeleton regexes + expression parser over seq.rs: "
+        "DEFAULT_EXTRA_ROWS, StripedSequence::new / configure / configure_wrap, Index<usize>, count_symbol(s)) -> "
+        "coq/stripe/GenSeq.v; proved equal to the hand model functions (C04_seq_translated)",
+        "the stream oracle of sm ops: EncodedSequence::sample called by the harness with the same StdRng seed and "
+        "Background (rand / rand_distr trusted; the model only says which draw lands in which cell)",
         "translator translate/stripe_net.py (regex + a small expression parser over avx2.rs::stripe_avx2: unpack! "
         "macro arms, 32 loads, unpack! invocations, 32 stores, the block loop's `while` condition and its three "
         "end-of-iteration steps, the scalar tail loop (condition, column count, guard, the three index expressions, "
@@ -113,8 +129,8 @@ SPEC = dict(
         "modelled by hand, tied by the correspondence check only: Stripe::stripe/stripe_into (pli/mod.rs), "
         "the statement skeleton of stripe_avx2 around the translated parts (resize, early return, asserts, order of "
         "the three loops, StripedSequence::new), "
-        "StripedSequence::{new, configure, configure_wrap, Index, count_symbol(s)} (seq.rs), DenseMatrix at table "
-        "level (dense.rs; layout is C19)",
+        "StripedSequence::sample / EncodedSequence::sample (seq.rs; functional model over an explicit stream), "
+        "DenseMatrix at table level (dense.rs; layout is C19)",
     ],
     assumptions=[
         "symbols are their indices (< K), A::Symbol::default() is the last symbol (N = 4, X = 20)",
@@ -126,6 +142,8 @@ SPEC = dict(
         "(Panic 90/91), proved unreachable (C04_stripe_avx2_spec)",
         "usize arithmetic does not overflow (lengths far below 2^64)",
         "not modelled: NEON / SSE2 have no striping kernel (the dispatcher's Sse2 arm runs the generic one, table "
-        "translated from dispatch.rs); StripedSequence::sample, Clone, Debug",
+        "translated from dispatch.rs; the arm/aarch64 arm table and lane count are regenerated too but can only be "
+        "replayed through the generic pipeline on this host); Clone, Debug; the distribution of sample() (only "
+        "which draw lands where); reads of DenseMatrix::uninitialized before initialisation (C06)",
     ],
 )
